@@ -58,6 +58,10 @@ def obligations(ctx, tier):
             for m in ("max", "min"):
                 out.append(core.f_row(K, PROP, tr(A, "core::cmp::Ord", [], m), call(inh(A, m), P(0), P(1))))
             out.append(core.f_row(K, PROP, tr(A, "core::cmp::Ord", [], "clamp"), call(inh(A, "clamp"), P(0), P(1), P(2))))
+            # ---- P-: comparisons and sign predicates never reach an API-contract panic
+            from analysis import audit
+            for m in ["cmp", "eq", "ne", "lt", "le", "gt", "ge", "max", "min"] + (["signum", "is_positive", "is_negative"] if is_signed(A) else []):
+                out += core.p_minus(K, PROP, inh(A, m), set(), audit.default())
             # ---- S: derived equality / hashing over the single representation field
             out += s_rows(K, A)
             # ---- sign functions (signed)
